@@ -15,10 +15,10 @@ PROPS = {
     "C16": {
         "shards": (1, 2),
         "rule": "all 2^9 subsets of {elemhide,generichide,jsinject,document,urlblock,genericblock,content,extension,important} "
-                "on an exception rule (direct GetCosmeticOption and through Engine.MatchRequest+GetCosmeticResult), on a blocking rule, "
+                "on an exception rule (direct GetCosmeticOption and through Engine.MatchRequest+GetCosmeticResult), on a blocking rule, as a referrer-only (document) rule with no basic rule (struct and engine), with replace/csp/stealth rules present, "
                 "and no basic rule, enumerated exhaustively; plus rapid-sampled written orders/patterns. Oracle: All minus union(disabled(m)); "
                 "monotone under adding any modifier. Non-trivial = exception with >=2 modifiers of which at least one disables something; distinct by (kind, modifier set).",
-        "exhaustive_note": "all 512 modifier subsets x {exception, engine, block} + absent rule",
+        "exhaustive_note": "all 512 modifier subsets x {exception, engine, block, referrer-only (struct, engine), with other rule kinds} + absent rule",
         "technique": "exhaustive enumeration of the finite modifier-subset space + rapid sampling against a set-algebra oracle",
         "level_text": "Exhaustive over the finite space the property quantifies over (512 subsets x 3 rule kinds + absent rule), so within that space the property is decided; sampled for written order and pattern.",
         "level_note": "Trusted: the harness oracle table of which modifier disables which option (taken from the property statement).",
@@ -26,11 +26,11 @@ PROPS = {
     },
     "C07": {
         "shards": (2, 8),
-        "rule": "pool = full product of the features IsHigherPriority reads (exception x important x {no,permitted,restricted-only} domain x 4 content-type shapes x 4 flag options x dnstype x ctag x client x denyallow = 3072 rules). "
+        "rule": "pool = full product of the features IsHigherPriority reads (exception x important x {no,permitted,restricted-only} domain x 4 content-type shapes x 4 flag options x {no,permitted,negated} dnstype x ctag x client x denyallow = 10368 rules). "
                 "Exhaustive: all ordered pairs of the pool (irreflexive, asymmetric, agreement with documented rank (class, specific, #modifiers)), every 'add one modifier' pair, all triples over a strided sub-pool (transitivity of > and of incomparability). "
                 "rapid: sampled 2..5-rule law cases, and candidate lists of 2..6 near-tie rules fed in ALL permutations to NewMatchingResult and GetDNSBasicRule (winner not outranked, maximal documented rank, same rank for every order). "
                 "Non-trivial/distinct = a pool rule whose full comparison row was checked, or a distinct candidate multiset for the selection check.",
-        "exhaustive_note": "pairs: 3072x3072; add-modifier pairs; triples over the sub-pool (stride 24 quick / 12 thorough)",
+        "exhaustive_note": "pairs: 10368x10368; add-modifier pairs; triples over the sub-pool (stride 24 quick / 12 thorough)",
         "technique": "exhaustive enumeration over a feature-product pool + rapid-generated candidate lists over all permutations, oracle = documented rank tuple",
         "level_text": "Pairs are decided exhaustively over the pool that spans every feature the comparison reads; triples exhaustively over a sub-pool; selection sampled with all permutations.",
         "level_note": "Trusted: harness rank function (class, domain-specific, modifier count) derived from the rule text; $redirect is not parseable in this version and is not covered.",
@@ -38,7 +38,7 @@ PROPS = {
     },
     "C09": {
         "shards": (4, 16),
-        "rule": "sequences of $dnsrewrite rules for one host over an alphabet shape x important x exception; exhaustive up to a length bound (reduced alphabet of 22 symbols: len<=4 quick / <=5 thorough; full alphabet of 46 symbols incl. AAAA/TXT/MX/SRV/HTTPS/REFUSED: len<=2 quick / <=3 thorough), each checked on a hand-built DNSResult and (len<=3) through a DNSEngine; rapid samples sequences of length 4..12. "
+        "rule": "sequences of $dnsrewrite rules for one host over an alphabet shape x important x exception; exhaustive up to a length bound (reduced alphabet of 22 symbols: len<=4 quick / <=5 thorough; full alphabet of 78 symbols incl. AAAA/TXT/PTR/MX/SRV/HTTPS/SVCB/REFUSED and one-field near misses of the structured values: len<=2 quick / <=3 thorough), each checked on a hand-built DNSResult and (len<=3) through a DNSEngine; rapid samples sequences of length 4..12. "
                 "Oracle: two-pass filter of DNSRewritesAll() with value equality by content. Non-trivial = >=2 exceptions or an exception with a structured (MX/SRV/SVCB) value; distinct by (sequence, entry point).",
         "exhaustive_note": "all sequences up to the stated length bounds over the stated alphabets, partitioned over shards by first symbol",
         "technique": "bounded-exhaustive sequence enumeration + rapid sampling against a two-pass reference filter",
